@@ -58,6 +58,9 @@ def stepLcs (s : S) (toks : List String) (impl : String) : S × String × String
   | ["reset", l, r] => ({ lhs := parseCsv l, rhs := parseCsv r }, "ok", "-")
   | "l" :: vs => let s' := { s with lhs := s.lhs ++ parseInts vs }; (s', s!"l={s'.lhs.length}", "-")
   | "r" :: vs => let s' := { s with rhs := s.rhs ++ parseInts vs }; (s', s!"r={s'.rhs.length}", "-")
+  | ["hold"] => (s, "ok", "-")
+  | ["revl"] => let s' := { s with lhs := s.lhs.reverse }; (s', s!"l={s'.lhs.length}", "-")
+  | ["rotl", k] => let s' := { s with lhs := MdsVerif.Drv.C11.rotR s.lhs (k.toNat?.getD 0) }; (s', s!"l={s'.lhs.length}", "-")
   | ["lcs"] => call 0
   | ["lcsf", k] => call (k.toNat?.getD 0)
   | ["lcsview", a, b] =>
@@ -100,6 +103,9 @@ def stepLis (s : S) (toks : List String) (impl : String) : S × String × String
   | ["reset"] => ({}, "ok", "-")
   | ["reset", l] => ({ lhs := parseCsv l }, "ok", "-")
   | "v" :: vs => let s' := { s with lhs := s.lhs ++ parseInts vs }; (s', s!"n={s'.lhs.length}", "-")
+  | ["hold"] => (s, "ok", "-")
+  | ["revl"] => let s' := { s with lhs := s.lhs.reverse }; (s', s!"l={s'.lhs.length}", "-")
+  | ["rotl", k] => let s' := { s with lhs := MdsVerif.Drv.C11.rotR s.lhs (k.toNat?.getD 0) }; (s', s!"l={s'.lhs.length}", "-")
   | ["lis", mode] => call true mode
   | ["lnds", mode] => call false mode
   | _ => (s, "bad-op", "bad bad-op")
